@@ -1764,7 +1764,8 @@ def df_unslice(df, ub):
     res = res(ts = lambda lb, ub: df_slice(df, lb, ub, '(]'))
     res = res(rs = lambda i, ts: dictable(u = ub[i: i+n], j = range(len(ub[i: i+n])))(ts = lambda j: ts[j] if is_df(ts) else ts))
     rs = dictable.concat(res.rs).listby('u').do([pd.concat, nona], 'ts')
-    res = rs['u', 'ts']
+    res = dict(rs['u', 'ts'])
+    res = [(u, res[u]) for u in ub] ## in the order of the bounds, not in listby's sorted order: a last bound None (unbounded) sorts first
     return dict(res if increasing else res[::-1]) ## the series in the order of the bounds given, as df_slice expects them
 
 
